@@ -183,6 +183,16 @@ REGISTRY = {
                 "huge parseable counts (2^64-1, 2^63, 2^32, 0) must behave like 'as many as there are'. threads 1/4, -q/default, prior applied state. All cases are refusal paths; distinct by (case, state, goal, configuration).",
         "floor": floors(("refusals-verified", 1000), ("huge-counts-verified", 100), ("case:state:longer", 20), ("case:goal:applied-name-all-applied", 20), ("case:badpatch:missing", 20)),
     },
+    "C18": {
+        "level": "fault_enumeration",
+        "level_text": "for each workspace the output operations of a fault-free run are counted by an LD_PRELOAD shim (one global counter over all threads) and the run is repeated once per operation with that operation failing; exit status, message and applied-patches are checked",
+        "level_note": "trusted: shim interposition of open/open64/openat/creat/write/writev/unlink/mkdir/rmdir/chmod/fchmod/rename/ftruncate; close/fsync failures and short writes are not modelled; in parallel runs the k-th operation may differ from the baseline's (it is still one output operation of that run)",
+        "technique": "runtime monitoring with fault injection: k-th-output-operation enumeration via LD_PRELOAD shim",
+        "parts": [K.cli_c18],
+        "rule": "random series (incl. failing ones, so rejects are written) pushed with --backup always, sequential and 4 threads; every k = 1..n of the n output operations of the fault-free run is failed in turn "
+                "(ENOSPC for open/write/mkdir, EACCES/EIO for unlink/rmdir/fchmod). Non-trivial: the fault was actually injected (shim log); distinct by (operation kind, output class, driver, workspace, k).",
+        "floor": floors(("faults-injected", 500), ("fault:write:tree", 20), ("fault:open:backup", 20), ("fault:open:reject", 5), ("fault:open:applied-patches", 20), ("fault:unlink:tree", 20), ("fault:mkdir:backup", 5)),
+    },
     "C19": {
         "level_text": "real pushes under strace inside a sentinel directory with decoy files at the places escaping names point to; sentinel snapshot, syscall audit, exit status and clean-failure oracle",
         "level_note": "trusted: strace decoding; symlinks inside the tree are out of scope (the statement is about names)",
